@@ -15,7 +15,7 @@ for d in seeded/C*/; do
   git -C /repo checkout -- .
   how=$(grep -A1 '^VIOLATION' /tmp/mut/seedres.$name.log | grep -v '^VIOLATION' | grep -v '^--' | head -1 | cut -c1-160 | tr '|' '/')
   [ -z "$how" ] && how=$(grep '^INCONCLUSIVE' /tmp/mut/seedres.$name.log | head -1 | cut -c1-160 | tr '|' '/')
-  needs=$(python3 -c "import json,sys; print((json.load(open('$d/meta.json')).get('needs_to_manifest') or '')[:220].replace('|','/').replace('\n',' '))")
+  needs=$(python3 -c "import json,sys; print((lambda m: m.get('needs_to_manifest') or m.get('needs') or '')(json.load(open('$d/meta.json')))[:220].replace('|','/').replace('\n',' '))")
   echo "| $name | $id | $needs | $rc | $how |" >> $out
   echo "$name exit=$rc"
 done
